@@ -112,7 +112,7 @@ func (v *Verdict) NumViolations() int {
 func (v *Verdict) Write() int {
 	v.mu.Lock()
 	defer v.mu.Unlock()
-	v.DistinctKeys = v.DistinctKeys[:0]
+	v.DistinctKeys = []string{}
 	for k := range v.distinct {
 		v.DistinctKeys = append(v.DistinctKeys, k)
 	}
